@@ -42,6 +42,30 @@ CHECKS = {
          "Decides only two necessary conditions: quoted node text is the rune slice [begin:end] (no string is indexed anywhere in the runtime) and every printer prints AST() with the parser's own Buffer naming nodes by their own rule. The nesting algorithm of AST() is explicitly NOT decided (value-level).",
          "DESIGN.md §4 C05",
          "Partial claim; trusts go/ssa and the instantiator; assumes C03 (post-order token list)."),
+ "C01": ("abstract interpretation of the emitter's source (E1) into operator templates on model trees with opaque children; instantiation of the runtime template (E3); disjunctive typestate dataflow on go/cfg of each emitted rule function compared with an independent PEG oracle (E2)",
+         "Decides the inductive PEG contract of every operator template under default options: the set of (verdict, final position, order/position of child attempts) the emitted code can produce equals the oracle's, for every expression node type, 1–3 children, all may-fail/never-fail flavours and two-level compositions; plus soundness of the always-succeeds shortcut and agreement of rule constants with the rule table. By structural induction these per-operator facts are necessary and, for well-formed grammars, sufficient.",
+         "DESIGN.md §4 C01",
+         "Trusts the interpreter's subset (it refuses anything else), go/types, go/cfg, the oracle in spec.go; assumes link's output shape as modelled (cross-checked by evaluating link) and that Go executes the emitted text as Go."),
+ "C03": ("same E1/E2/E3 pipeline, token-trace component: symbolic token trace at every exit and every child attempt vs the oracle's post-order trace; go/ssa rules on tokenIndex writers, add/tokens.Add wiring, Trim",
+         "Decides that tokenIndex is saved and restored together with position at every backtrack point, own tokens are added after the children's with the entry snapshot as begin, nothing added inside failed alternatives/abandoned iterations/lookaheads survives, and the runtime records/overwrites/trims tokens as the emitted code assumes.",
+         "DESIGN.md §4 C03",
+         "Assumptions of C01; trusts go/ssa for the runtime half."),
+ "C04": ("E1/E2 token-trace equality on models with actions and captures in failing branches, repetitions and lookaheads; evaluation of link's source for action numbering; AST/type rules on Execute of every instantiation",
+         "Decides that each action occurrence yields exactly one zero-width token of its own rule, captures add their token after their children, such tokens never survive backtracking, action ids/names/code agree, and Execute replays the token list once in order binding text/begin/end from the capture token only.",
+         "DESIGN.md §4 C04",
+         "Assumptions of C01/C03; user action code is outside the property."),
+ "C07": ("E1/E2 run with and without the AST on the same models: equality of the projected outcome sets (position skeleton), and equality with the oracle extended by inline action/capture events; type-check of the 16 -noast runtime instantiations",
+         "Decides that the position/label skeleton of every operator template and of the rule wrapper is independent of the AST switch (plain and -inline), that under -noast an action's code runs exactly once where the token would be added and a capture assigns text from the entry snapshot to the current position, and that all -noast runtime configurations compile.",
+         "DESIGN.md §4 C07",
+         "Assumptions of C01; -switch combinations are judged by C02."),
+ "C08": ("type-checking every operator-template instantiation (E1 text spliced behind the E3 runtime) under {AST,-noast}×{plain,-inline} incl. lexical-context representatives and a 300-rule model; dry/real label-parity observation; evaluation of the rule-type thresholds; SSA dedup rule on t.Imports; constant rule on the gofmt printer configuration",
+         "Decides validity of the templates from which every output is assembled: all instantiations parse and type-check, labels marked in the dry pass equal those jumped to in the real pass, rule ids never need the type parameter, the rule constant type has exact thresholds, imports are de-duplicated, and the result is printed with gofmt's configuration. One recorded finding (predicate ending in a line comment).",
+         "DESIGN.md §4 C08",
+         "Trusts go/parser, go/types, go/printer; excludes invalid user Go and reserved identifiers as the property does."),
+ "C13": ("E2 guardedness flags (every position++ preceded on its path by a successful test excluding endSymbol) on the model suite under default/-noast/-inline; go/ssa dominance rules on matchDot/matchString; path simulation of reset's sentinel; index-site and no-string-indexing rules",
+         "Decides the inductive in-bounds invariant of position (sentinel re-established by reset and outside the rune range; advances only after a guarded test; otherwise snapshots; buffer indexed only at position/the literal cursor; offsets index runes). -switch configurations are judged by C02.",
+         "DESIGN.md §4 C13",
+         "Children keep the invariant (induction); termination/stack depth not decided."),
 }
 
 NOT_APPLICABLE = {
